@@ -33,5 +33,6 @@ extern struct kv_op kv_ops_ref[];
 extern struct kv_op kv_ops_kmeans[];
 extern struct kv_op kv_ops_pipe[];
 extern struct kv_op kv_ops_pipefile[];
+extern struct kv_op kv_ops_cli[];
 
 #endif
